@@ -9,6 +9,7 @@ import (
 	"io/fs"
 	"io/ioutil"
 	"os"
+	"path/filepath"
 	"reflect"
 	"runtime"
 	"strings"
@@ -253,6 +254,15 @@ func unmarshalJsonFile(path string, i interface{}) (err error) {
 	return
 }
 
+// tmpPath returns the path of the temporary file used to write path. Its
+// name cannot be taken for the one of an Object (it does not start with a UUID)
+func tmpPath(path string) string {
+	return filepath.Join(filepath.Dir(path), fmt.Sprintf(".tmp-%s", filepath.Base(path)))
+}
+
+// writeReader writes r to path. Data is first written to a temporary file
+// which is renamed once complete, so that an interrupted write (crash) never
+// leaves a truncated file in place of the previous version of path
 func writeReader(path string, r io.Reader, perms fs.FileMode, compress bool) (err error) {
 	var out *os.File
 	var w io.WriteCloser
@@ -261,24 +271,38 @@ func writeReader(path string, r io.Reader, perms fs.FileMode, compress bool) (er
 		path = fmt.Sprintf("%s%s", path, compressedExtension)
 	}
 
-	if out, err = os.OpenFile(path, os.O_CREATE|os.O_TRUNC|os.O_RDWR, perms); err != nil {
+	tmp := tmpPath(path)
+	if out, err = os.OpenFile(tmp, os.O_CREATE|os.O_TRUNC|os.O_RDWR, perms); err != nil {
 		return
 	}
-	defer out.Close()
 
 	// default value for writer
 	w = out
 	if compress {
 		if w, err = gzip.NewWriterLevel(out, gzip.BestSpeed); err != nil {
+			out.Close()
+			os.Remove(tmp)
 			return
 		}
-		defer w.Close()
 	}
 
-	if _, err = io.Copy(w, r); err != nil {
+	if _, err = io.Copy(w, r); err == nil {
+		err = w.Close()
+	}
+
+	if compress {
+		// closing gzip writer does not close underlying file
+		if e := out.Close(); err == nil {
+			err = e
+		}
+	} else if err != nil {
+		out.Close()
+	}
+
+	if err != nil {
+		os.Remove(tmp)
 		return
 	}
 
-	return w.Close()
-
+	return os.Rename(tmp, path)
 }
